@@ -31,6 +31,12 @@ fn ops() -> Vec<(&'static str, Op)> {
     ]
 }
 
+const BUILTIN_NAMES: &[&str] = &[
+    "pow", "powf", "sqrt", "to_int", "to_bigint", "to_byte", "to_float", "abs", "to_ascii", "fpart", "ipart", "round", "floor", "ceil",
+    "to_str", "len", "substring", "contains", "index_of", "reverse", "insert", "replace", "delete", "parse_int", "parse_int_radix",
+    "parse_bigint", "parse_bigint_radix", "parse_bool", "parse_float", "parse_byte", "split", "chars",
+];
+
 fn kind_name(t: &TypeLayout) -> String {
     match t {
         TypeLayout::Native(NativeType::Bool) => "Bool".into(),
@@ -243,6 +249,24 @@ fn verif_native_run() {
                 };
                 writeln!(out, "cell {} {} {} {}", ln, rn, on, s).unwrap();
             }
+        }
+        // declared result type of every built-in method name on this receiver kind
+        for name in BUILTIN_NAMES {
+            let recv = TypeLayout::Native(l);
+            let decl = match recv.get_property_type(name) {
+                None => "None".to_string(),
+                Some(p) => {
+                    let t: &TypeLayout = &***p;
+                    match t {
+                        TypeLayout::Function(f) => match f.return_type().get_type() {
+                            Some(t) => t.to_string().replace(' ', ""),
+                            None => "void".to_string(),
+                        },
+                        other => format!("NotAFunction:{}", other).replace(' ', ""),
+                    }
+                }
+            };
+            writeln!(out, "builtin {} {} {}", ln, name, decl).unwrap();
         }
         writeln!(out, "negate {} {}", ln, TypeLayout::Native(l).supports_negate()).unwrap();
         writeln!(out, "not {} {}", ln, TypeLayout::Native(l).is_boolean()).unwrap();
